@@ -1263,6 +1263,91 @@ def flush_cases(ctx, H, tag=""):
     return bad
 
 
+HIST_OK = re.compile(r" runs=\d+ diffs=0$")
+
+
+def history_cases(ctx, H):
+    """Same data + same options => same result, whatever the handle did before: brand-new handle vs a handle re-initialised
+    (no lzma_end) after a finished job, after a job that ended in an error, and after a job ABANDONED in the middle - in particular
+    a threaded encoder left with every worker busy and more Blocks pending (tiny output window, or a timeout), then re-initialised
+    with DIFFERENT options."""
+    rng, quick = ctx.rng, ctx.quick()
+    nops = (36 if quick else 300) * (3 if ctx.broken else 1)
+    small = "lzma2,dict=65536"
+
+    def mt_history():
+        thr = rng.choice((1, 1, 1, 2, 3))
+        bs = rng.choice((65536, 65536, 262144, 1 << 20))
+        what = rng.choice((str(9 | EXTREME), str(6 | EXTREME), "6", "lzma2,dict=4194304,mf=20,nice=273,depth=200,mode=2", "x86+lzma2,dict=1048576,mf=20,nice=128",
+                           "delta,dist=4+lzma2,dict=65536,lc=0,lp=2,pb=0"))
+        if what == str(9 | EXTREME) and rng.random() < 0.5:
+            what = str(6 | EXTREME)
+        timeout = rng.choice((0, 0, 1, 5))
+        nblocks = rng.choice((2, 3, 4, 5))
+        outcap = rng.choice((12, 12, 1, 13, 100, 0)) if timeout == 0 else rng.choice((0, 12, 4096))
+        return "semt:%d:%d:%d:%d:%s|%d|%d|%d|%d|a" % (thr, timeout, bs, rng.choice((0, 1, 4, 10)), what, rng.randrange(1, 1 << 30),
+                                                    bs * nblocks + rng.randrange(0, 999), outcap, rng.choice((1, 2, 2, 3, 3, 4, 5, 6, 8, 12)))
+
+    def other_history():
+        c = rng.choice(("easy:%d:4" % rng.choice((0, 1, 6)), "se:1:x86+" + small, "sd:0:0", "sdmt:0:2:0:0:0", "alone:0", "auto:8:0", "lzip:0:0",
+                        "rawe:" + small, "rawd:" + small, "alonee:lzma1,dict=4096", "semt:2:0:4096:4:1", "indexd:0", "fileinfo:0"))
+        kind = rng.choice("aaf")
+        return "%s|%d|%d|%d|%d|%s" % (c, rng.randrange(1, 1 << 30), rng.choice((0, 1, 50, 5000, 70000)), rng.choice((0, 1, 12, 100)), rng.randrange(1, 6), kind)
+
+    lines, meta = [], []
+    for k in range(nops):
+        r = rng.random()
+        if r < 0.6:
+            thr = rng.choice((1, 2, 3))
+            bs = rng.choice((4096, 8192, 65536))
+            what = rng.choice(("1", "0", "3", small, "delta,dist=1+" + small, "arm64+" + small, "lzma2,dict=4096,lc=0,lp=0,pb=0,mf=3,mode=1,nice=16"))
+            coder = "semt:%d:%d:%d:%d:%s" % (thr, rng.choice((0, 0, 1)), bs, rng.choice((0, 1, 4)), what)
+            data = gen_repeats(rng, bs * rng.choice((1, 2, 3)) + rng.randrange(1, 2000), rng.choice(("records", "text", "code", "echo")))
+            sl = rng.choice(("W", "W", "B:12", "R:%d:50:%d:%d:10" % (rng.randrange(1, 1 << 30), max(1, len(data) // 3), 4096)))
+            hs = [mt_history() for _ in range(4 if quick else 6)] + [other_history()]
+        else:
+            files = corpus_files()
+            name, fdata = rng.choice([f for f in files if f[0].startswith("good")])
+            if name.endswith(".xz"):
+                coder = rng.choice(("sd:0:0", "sd:8:0", "auto:0:0", "sdmt:0:2:0:0:0", "fileinfo:0"))
+            elif name.endswith(".lzma"):
+                coder = rng.choice(("alone:0", "auto:0:0"))
+            else:
+                coder = rng.choice(("lzip:0:0", "auto:0:0"))
+            if rng.random() < 0.4:
+                coder = rng.choice(("easy:%d:4" % rng.choice((1, 6)), "se:4:x86+" + small, "rawe:" + small, "alonee:lzma1,dict=4096", "blocke:1:" + small))
+                fdata = gen_repeats(rng, rng.choice((0, 100, 6000)), "records")
+            if len(fdata) > 6000:
+                continue
+            data = fdata
+            sl = rng.choice(("W", "B:0", "B:3", "B:13"))
+            hs = [mt_history()] + [other_history() for _ in range(3 if quick else 5)]
+        lines.append("hist %s F %s %s %s" % (coder, hx(data), sl, " ".join(hs)))
+        meta.append((coder, len(data), hs))
+    outs = H.run(lines, costs=[sum(int(h.split("|")[2]) for h in m[2]) + m[1] for m in meta])
+    bad = 0
+    for ln, (coder, n, hs), o in zip(lines, meta, outs):
+        if o is None:
+            continue
+        mr = re.search(r" runs=(\d+) diffs=(\d+)$", o)
+        if not mr or "bad-" in o:
+            ctx.obligation_broken("harness did not understand a hist op", ln[:120] + " -> " + o[:300])
+            continue
+        ctx.cov["evaluations"] += int(mr.group(1)) + 1
+        ctx.case((coder, ln[-80:]), True, None)
+        ctx.count("history:" + coder.split(":")[0], int(mr.group(1)))
+        for h in hs:
+            ctx.count("history-kind:%s-%s" % (h.split("|")[0].split(":")[0], {"a": "abandoned", "f": "finished-or-error"}[h.split("|")[5]]))
+        if not HIST_OK.search(o):
+            bad += 1
+            if bad <= 5:
+                ctx.violation("handle-history", {"kind": "the result of a job depends on what the lzma_stream handle did before (re-initialised without lzma_end)",
+                                                 "op": ln, "result": o, "expect_regex": HIST_OK.pattern,
+                                                 "how_to_replay": "./check C06 --replay <this file>  (history = coderA|seed|len|outcap|calls|a(bandoned)/f(inished))"}, True)
+    ctx.cov["correspondence"]["handle_history"] = {"ops": len(lines), "failing": bad}
+    return bad
+
+
 def oracle(ctx, H):
     """The direct C-vs-C slicing oracle. Returns number of violations found."""
     t0 = time.time()
@@ -1356,6 +1441,7 @@ def oracle(ctx, H):
                           replay_dict("determinism", g["data"], g["cmp"], runs_, res, ("" if differs else "not reproduced on the second try (non-deterministic) ") + g["tag"]), True)
             nviol += 1
     nviol += flush_cases(ctx, H)
+    nviol += history_cases(ctx, H)
     # Once more on the plain optimised build (NDEBUG): there an encoder-internal assert() cannot pre-empt the comparison, so a
     # dependence on the slicing shows as differing bytes (the replay is then a property-level failing input).
     try:
